@@ -164,6 +164,9 @@ func runBackend(t *testing.T, tw *trace.Writer, vname string, c *bcase, idx int,
 				}
 			}
 			p.note(payload, o == "ok")
+			if o == "slow" {
+				return bk.Slow(2*time.Second, bk.Fail(errors.New("cloudwatch: throttled")))
+			}
 			if o != "ok" {
 				return bk.Fail(errors.New("cloudwatch: throttled"))
 			}
@@ -181,7 +184,9 @@ func runBackend(t *testing.T, tw *trace.Writer, vname string, c *bcase, idx int,
 		var lastCancel context.CancelFunc
 		issued := map[int]time.Time{}
 		waves := map[int]int{} // how many rounds of max_requests (2) concurrent batches a request needs
-		send := func(batches int, fresh bool) {
+		var send func(batches int, fresh bool)
+		precancel := false
+		send = func(batches int, fresh bool) {
 			nreq++
 			id := nreq
 			issued[id] = time.Now()
@@ -195,6 +200,9 @@ func runBackend(t *testing.T, tw *trace.Writer, vname string, c *bcase, idx int,
 			}
 			mm := mapFor(id, batches)
 			tw.Emit(map[string]any{"ev": "req", "id": id, "batches": batches})
+			if precancel {
+				rc()
+			}
 			go func() {
 				defer func() {
 					if x := recover(); x != nil {
@@ -215,6 +223,14 @@ func runBackend(t *testing.T, tw *trace.Writer, vname string, c *bcase, idx int,
 			case "send":
 				send(o.N, false)
 				res.Hit(fmt.Sprintf("batches:%d", o.N))
+			case "sendc":
+				precancel = true
+				for k := 0; k < 12; k++ {
+					send(o.N, false)
+					synctest.Wait()
+				}
+				precancel = false
+				res.Hit("request-with-cancelled-context")
 			case "fail":
 				p.mu.Lock()
 				for k := 0; k < o.N; k++ {
